@@ -619,6 +619,30 @@ func (c *checker) checkLogList(sp space) {
 			return ll.Compatible(cert, c.fx.rootParsed, loglist3.LogRoots{})
 		}},
 	}
+	// the same instants written with a zone offset (log lists are JSON, RFC 3339 allows any offset): an instant is an instant
+	zoned := func(z *time.Location) *loglist3.LogList {
+		cp := &loglist3.LogList{Version: ll.Version}
+		for _, op := range ll.Operators {
+			o := &loglist3.Operator{Name: op.Name, Email: op.Email}
+			for _, lg := range op.Logs {
+				l2 := *lg
+				if lg.TemporalInterval != nil {
+					ti := &loglist3.TemporalInterval{EndExclusive: lg.TemporalInterval.EndExclusive.In(z)}
+					if !lg.TemporalInterval.StartInclusive.IsZero() {
+						ti.StartInclusive = lg.TemporalInterval.StartInclusive.In(z)
+					}
+					l2.TemporalInterval = ti
+				}
+				o.Logs = append(o.Logs, &l2)
+			}
+			cp.Operators = append(cp.Operators, o)
+		}
+		return cp
+	}
+	for _, z := range []*time.Location{otherZone, time.FixedZone("c18-12", -12*3600)} {
+		lz := zoned(z)
+		variants = append(variants, variant{"TemporallyCompatible(bounds written in zone " + z.String() + ")", func(cert *x509.Certificate) loglist3.LogList { return lz.TemporallyCompatible(cert) }})
+	}
 	if llJSON != nil {
 		variants = append(variants, variant{"NewFromJSON+TemporallyCompatible", func(cert *x509.Certificate) loglist3.LogList { return llJSON.TemporallyCompatible(cert) }})
 	}
